@@ -16,10 +16,10 @@ using refq::cplx;
 using refq::SV;
 using sim::Json;
 
-enum Kind { DECL = 0, DECLARR, NEWOBJ1, NEWOBJ2, GATE, CX, MEAS_STMT, MEAS_EXPR, MEAS_ARR, RESET, DROP, IFGATE, CYCLE, ALIAS, KIND_COUNT };
-inline bool isDecl(int k) { return k <= NEWOBJ2 || k == ALIAS; }
+enum Kind { DECL = 0, DECLARR, NEWOBJ1, NEWOBJ2, GATE, CX, MEAS_STMT, MEAS_EXPR, MEAS_ARR, RESET, DROP, IFGATE, CYCLE, ALIAS, FACTORY, KIND_COUNT };
+inline bool isDecl(int k) { return k <= NEWOBJ2 || k == ALIAS || k == FACTORY; }
 inline const char* kindName(int k) {
-    static const char* n[] = {"decl", "declarr", "newobj1", "newobj2", "gate", "cx", "measure_stmt", "measure_expr", "measure_array", "reset", "drop", "if_gate", "garbage_cycle_owning_qubits", "alias"};
+    static const char* n[] = {"decl", "declarr", "newobj1", "newobj2", "gate", "cx", "measure_stmt", "measure_expr", "measure_array", "reset", "drop", "if_gate", "garbage_cycle_owning_qubits", "alias", "qubit_returned_by_function"};
     return k >= 0 && k < KIND_COUNT ? n[k] : "?";
 }
 inline const char* gateName(int g) {
@@ -31,6 +31,7 @@ inline const char* gateName(int g) {
 // 4 alias variable a<decl> (a copy of another handle, may outlive the object it was copied from); 5 static field SQ.s
 struct Handle {
     int k = 0, decl = 0, elem = 0;
+    bool viaBit = false;   // array element addressed by a bit-typed subscript (a call returning 0b / 1b)
 };
 
 struct Op {
@@ -80,7 +81,7 @@ struct DeclInfo {
 inline std::string handleExpr(const Handle& h) {
     switch (h.k) {
         case 0: return "q" + std::to_string(h.decl);
-        case 1: return "r" + std::to_string(h.decl) + "[" + std::to_string(h.elem) + "]";
+        case 1: return "r" + std::to_string(h.decl) + "[" + (h.viaBit && h.elem <= 1 ? (h.elem ? std::string("bitOne()") : std::string("bitZero()")) : std::to_string(h.elem)) + "]";
         case 2: return "o" + std::to_string(h.decl) + ".q";
         case 4: return "a" + std::to_string(h.decl);
         case 5: return "SQ.s";
@@ -128,6 +129,8 @@ inline std::string preamble(bool trackedFields, bool staticQubit = false) {
     s += "function freset(qubit p) -> void { reset p; }\n";
     s += "function farrx(qubit[] r, int i) -> void { x(r[i]); }\n";
     s += "function farrm(qubit[] r) -> void { measure r; }\n";
+    s += "function bitZero() -> bit { return 0b; }\nfunction bitOne() -> bit { return 1b; }\n";
+    s += "function prepH() -> qubit { qubit t; h(t); return t; }\nfunction prepN() -> qubit { qubit t; return t; }\n";
     if (staticQubit) s += "static class SQ { public static qubit s; }\n";
     s += "class QB { public qubit q; public constructor() -> QB = default; }\n";
     s += "class QS extends QB { public QS next; public constructor() -> QS { super(); this.next = null; return this; } }\n";
@@ -222,6 +225,7 @@ inline Rendered render(const Plan& p, bool trackedFields = false) {
                 break;
             }
             case CYCLE: add("mkCycle();", oi, true); break;
+            case FACTORY: add("qubit q" + std::to_string(declCounter++) + (o.gate == 0 ? " = prepH();" : " = prepN();"), oi, true); break;
             case ALIAS: add("qubit a" + std::to_string(declCounter++) + " = " + handleExpr(o.h2) + ";", oi, true); break;
             case DROP: {
                 std::string v = (o.h.k == 2 ? "o" : "p") + std::to_string(o.h.decl);
@@ -238,8 +242,8 @@ inline Rendered render(const Plan& p, bool trackedFields = false) {
 }
 
 // ---- JSON ------------------------------------------------------------------------------------------
-inline Json handleJson(const Handle& h) { return Json::object().set("k", h.k).set("decl", h.decl).set("elem", h.elem); }
-inline Handle handleFrom(const Json& j) { return Handle{(int)j.at("k").asInt(), (int)j.at("decl").asInt(), (int)j.at("elem").asInt()}; }
+inline Json handleJson(const Handle& h) { return Json::object().set("k", h.k).set("decl", h.decl).set("elem", h.elem).set("bit", h.viaBit); }
+inline Handle handleFrom(const Json& j) { Handle h; h.k = (int)j.at("k").asInt(); h.decl = (int)j.at("decl").asInt(); h.elem = (int)j.at("elem").asInt(); h.viaBit = j.at("bit").asBool(); return h; }
 inline Json toJson(const Plan& p) {
     Json a = Json::array();
     for (auto& o : p.ops) {
@@ -381,10 +385,12 @@ inline Plan generate(sim::Rng& g, const GenOptions& go) {
             if (v < go.objectShare * 0.6 && allocated + 1 <= go.maxQubits + freeSlots) { d.kind = 2; d.size = 1; o.kind = NEWOBJ1; }
             else if (v < go.objectShare && allocated + 2 <= go.maxQubits + freeSlots) { d.kind = 3; d.size = 2; o.kind = NEWOBJ2; }
             else if (v < go.objectShare + 0.2 && allocated + 2 <= go.maxQubits + freeSlots) { d.kind = 1; d.size = 2; o.kind = DECLARR; o.size = 2; }
+            else if (allocated + 2 <= go.maxQubits + freeSlots && g.chance(0.15)) { d.kind = 0; d.size = 1; o.kind = FACTORY; o.gate = (int)g.below(2); takeQubits(1); }
             else if (allocated + 1 <= go.maxQubits + freeSlots) { d.kind = 0; d.size = 1; o.kind = DECL; }
             else continue;
             d.tracked = go.tracked && g.chance(0.6);
-            o.tracked = d.tracked && (d.kind == 0 || d.kind == 1);
+            o.tracked = d.tracked && (d.kind == 0 || d.kind == 1) && o.kind != FACTORY;
+            if (o.kind == FACTORY) d.tracked = false;
             decls.push_back(d);
             takeQubits(d.size);
             addHandles((int)decls.size() - 1);
@@ -480,6 +486,12 @@ inline Plan generate(sim::Rng& g, const GenOptions& go) {
                 live[k].measured = true;
             }
             p.ops.push_back(o);
+        }
+    }
+    for (auto& o : p.ops) {
+        if (o.kind >= GATE && o.kind != DROP && o.kind != CYCLE && o.kind != ALIAS && o.kind != FACTORY) {
+            if (o.h.k == 1 && o.kind != MEAS_ARR && g.chance(0.2)) o.h.viaBit = true;
+            if (o.kind == CX && o.h2.k == 1 && g.chance(0.2)) o.h2.viaBit = true;
         }
     }
     // drop every remaining object explicitly so that no object dies in the unordered scope teardown
@@ -688,6 +700,18 @@ struct Interp {
                 // sweep them at any time; their qubits are never released (they stay |0> and allocated)
                 leaked.push_back(allocIndex());
                 leaked.push_back(allocIndex());
+                break;
+            }
+            case FACTORY: {
+                // 'qubit q = prepH();': the declaration allocates a qubit of its own (then unreachable), the function's
+                // local qubit is returned and keeps its index after the callee's scope has ended
+                leaked.push_back(allocIndex());
+                int idx = allocIndex();
+                if (o.gate == 0) { sv.h(idx); qasm.push_back("h q[" + std::to_string(idx) + "];"); }
+                DeclInfo d;
+                d.kind = 0;
+                decls.push_back(d);
+                declIdx.push_back({idx});
                 break;
             }
             case ALIAS: {
